@@ -83,6 +83,17 @@ __CPROVER_ensures(VP_NO_LOCK_HELD && s->s_ref == OLD(s->s_ref) - 1 && g_free_cal
 __CPROVER_ensures((s->s_closed && s->s_ref <= 1) ? (g_wake_calls == OLD(g_wake_calls) + 1 && g_wake_cv == &s->s_close_cv) : g_wake_calls == OLD(g_wake_calls))
 ;
 
+/* was_freed clauses of the release contracts.  A unit that REPLACES nni_ctx_close by its contract may define
+ * SC_CALLEE_NO_WAS_FREED: the clauses are then dropped from the ASSUMED callee contract (the caller assumes less --
+ * the release is still counted in g_free_calls); with them the caller's path through the call came out
+ * unreachable in the reachability probes (DFCC artefact around __CPROVER_was_freed in replaced contracts). */
+#ifdef SC_CALLEE_NO_WAS_FREED
+#define SC_WAS_FREED(p) 1
+#define SC_NOT_FREED(p) 1
+#else
+#define SC_WAS_FREED(p) __CPROVER_was_freed(p)
+#define SC_NOT_FREED(p) (!__CPROVER_was_freed(p))
+#endif
 /* context release: the count drops by exactly one; the context is destroyed
  * exactly when the last reference of a CLOSED context goes, never before:
  * its id leaves ctx_ids FIRST (before the block is released: no map entry
@@ -100,15 +111,15 @@ __CPROVER_frees(ctx)
 #define CTX_RELE_POST(ctx, destroy) \
 __CPROVER_ensures(VP_NO_LOCK_HELD) \
 /* not the last reference of a closed context: one reference less, nothing else */ \
-__CPROVER_ensures(!(destroy) ==> ((ctx)->c_ref == OLD((ctx)->c_ref) - 1 && VP_HEAP_DELTA(0, 0) && g_idr_calls == OLD(g_idr_calls) && g_wake_calls == OLD(g_wake_calls) && g_cfini_calls == OLD(g_cfini_calls) \
-    && !__CPROVER_was_freed(ctx) && (ctx)->c_node.ln_next == OLD((ctx)->c_node.ln_next) && (ctx)->c_node.ln_prev == OLD((ctx)->c_node.ln_prev))) \
+__CPROVER_ensures(!(destroy) ==> (SC_NOT_FREED(ctx) && (ctx)->c_ref == OLD((ctx)->c_ref) - 1 && VP_HEAP_DELTA(0, 0) && g_idr_calls == OLD(g_idr_calls) && g_wake_calls == OLD(g_wake_calls) && g_cfini_calls == OLD(g_cfini_calls) \
+    && (ctx)->c_node.ln_next == OLD((ctx)->c_node.ln_next) && (ctx)->c_node.ln_prev == OLD((ctx)->c_node.ln_prev))) \
 /* destroyed: its id removed from ctx_ids, once, before anything was released */ \
 __CPROVER_ensures((destroy) ==> (SC_REMOVED(ctx_ids, OLD((ctx)->c_id)) && g_idr_at_free == OLD(g_free_calls))) \
 /* off the socket's list, closer woken */ \
 __CPROVER_ensures((destroy) ==> (NODE_UNLINKED_POST((ctx)->c_node) && g_wake_calls == OLD(g_wake_calls) + 1 && g_wake_cv == &OLD((ctx)->c_sock)->s_close_cv)) \
 /* protocol state finalised once (if there is any), BEFORE the block goes; the block is released exactly once, sized */ \
 __CPROVER_ensures((destroy) ==> (OLD((ctx)->c_data) != NULL ? (g_cfini_calls == OLD(g_cfini_calls) + 1 && g_cfini_data == OLD((ctx)->c_data) && g_cfini_at_free == OLD(g_free_calls)) : g_cfini_calls == OLD(g_cfini_calls))) \
-__CPROVER_ensures((destroy) ==> (__CPROVER_was_freed(ctx) && VP_HEAP_DELTA(0, 1)))
+__CPROVER_ensures((destroy) ==> (SC_WAS_FREED(ctx) && VP_HEAP_DELTA(0, 1)))
 
 void nni_ctx_rele(nni_ctx *ctx)
 __CPROVER_requires(CTX_SHAPE(ctx) && ctx->c_ref >= 1 && VP_NO_LOCK_HELD)
@@ -138,8 +149,19 @@ COVER(OLD(ctx->c_ref) == 1) COVER(OLD(ctx->c_ref) == 2)
 #define NEWCTX (*ctxp)
 #define CTXSZ(sock) (NNI_ALIGN_UP(sizeof(nni_ctx)) + (sock)->s_ctx_ops.ctx_size)
 #define CO_ISSUED (g_ida_calls == OLD(g_ida_calls) + 1 && !g_ida_fail)
+/* the same contract text is checked in two runs that split on the socket's state (disjoint and exhaustive):
+ * SC_CO_CLOSING: s_closing set (the path that has to take the new context apart again; real nni_ctx_close / nni_ctx_rele),
+ * SC_CO_OPEN: s_closing clear (nni_ctx_close, never called on a feasible path there, replaced by its contract) */
+#if defined(SC_CO_CLOSING)
+#define CO_CASE(sock) ((sock)->s_closing)
+#elif defined(SC_CO_OPEN)
+#define CO_CASE(sock) (!(sock)->s_closing)
+#else
+#define CO_CASE(sock) 1
+#endif
 int nni_ctx_open(nni_ctx **ctxp, nni_sock *sock)
-__CPROVER_requires(FRESH(ctxp, *ctxp) && FRESH(sock, SOCKT) && VP_NO_LOCK_HELD)
+__CPROVER_requires(FRESH(ctxp, *ctxp) && FRESH(sock, SOCKT) && VP_NO_LOCK_HELD && SC_RANGE(ctx_ids))
+__CPROVER_requires(CO_CASE(sock))
 __CPROVER_requires((sock->s_ctx_ops.ctx_init == NULL || sock->s_ctx_ops.ctx_init == vp_ctx_init) && sock->s_ctx_ops.ctx_fini == vp_ctx_fini && sock->s_ctx_ops.ctx_size == 0)
 /* g_sole_b: the socket has no context yet; g_sole_a: bound for the release step of the closing path */
 __CPROVER_requires(sock->s_ctxs.ll_offset == offsetof(nni_ctx, c_node) && TAIL_PRE(sock->s_ctxs, g_sole_b) && g_sole_a)
@@ -167,6 +189,42 @@ __CPROVER_ensures(RV != 0 ==> (sock->s_ctxs.ll_head.ln_prev == OLD(sock->s_ctxs.
 __CPROVER_ensures((RV == NNG_ENOMEM || RV == NNG_ENOTSUP) ==> (g_cinit_calls == OLD(g_cinit_calls) && !CO_ISSUED))
 __CPROVER_ensures((g_ida_calls != OLD(g_ida_calls) && g_ida_fail) ==> RV == NNG_ENOMEM)
 COVER(RV == 0) COVER(RV == NNG_ENOMEM && g_alloc_ok != OLD(g_alloc_ok)) COVER(RV == NNG_ECLOSED && sock->s_closed) COVER(RV == NNG_ECLOSED && !sock->s_closed) COVER(RV == NNG_ENOMEM && g_alloc_ok == OLD(g_alloc_ok))
+;
+
+/* ================================================================ nni_sock_open
+ * nni_sock_create is replaced by an ASSUMED contract (not enforced by any
+ * unit, see not_decided): it hands out a freshly allocated, unregistered
+ * (s_id == 0), unlinked socket with both message queues and the protocol
+ * state initialised, or fails and leaves nothing behind. */
+#define NS (*sp)
+static int nni_sock_create(nni_sock **sp, const nni_proto *proto)
+__CPROVER_requires(FRESH(sp, *sp))
+__CPROVER_assigns(*sp, VP_HEAP_GHOSTS, g_mqinit_calls, g_sinit_calls, g_sinit_data, g_sinit_sock)
+__CPROVER_ensures(RV == 0 ? (FRESH(NS, SOCKT) && NS->s_size == sizeof(SOCKT) && NS->s_id == 0 && NS->s_ref == 0 && !NS->s_closed && !NS->s_closing && NS->s_node.ln_next == NULL && NS->s_node.ln_prev == NULL \
+        && NS->s_sock_ops.sock_open == vp_sock_open && NS->s_sock_ops.sock_fini == vp_sock_fini && NS->s_data != NULL && VP_HEAP_DELTA(1, 0) && g_mqinit_calls == OLD(g_mqinit_calls) + 2) \
+    : (NS == OLD(NS) && VP_HEAP_DELTA(0, 0) && g_mqinit_calls == OLD(g_mqinit_calls)))
+;
+/* C18: the socket's id is the one the allocator issued from sock_ids for
+ * exactly this socket, positive 31-bit (range fixed by the static initialiser);
+ * the socket is on the global list and the protocol's sock_open ran once,
+ * under the global lock.  C20 / C03: when the id cannot be allocated the
+ * socket is destroyed -- protocol state finalised once, both queues released,
+ * the block released once with its recorded size -- and is neither
+ * registered, nor listed, nor handed out; no lock is held on return. */
+#define NSK (*sockp)
+int nni_sock_open(nni_sock **sockp, const nni_proto *proto)
+__CPROVER_requires(FRESH(sockp, *sockp) && VP_NO_LOCK_HELD && TAIL_PRE(sock_list, g_sole_a) && SC_RANGE(sock_ids) && sock_list.ll_offset == offsetof(nni_sock, s_node))
+__CPROVER_assigns(*sockp, sock_list.ll_head.ln_prev, sock_list.ll_head.ln_prev->ln_next, sock_ids.id_count, G_IDA, VP_HEAP_GHOSTS, g_mqinit_calls, g_mqfini_calls, g_sinit_calls, g_sinit_data, g_sinit_sock, \
+    g_sfini_calls, g_sfini_data, g_sopen_calls, g_sopen_data, g_sopen_locked, VP_SYNC_GHOSTS)
+__CPROVER_ensures(VP_NO_LOCK_HELD)
+__CPROVER_ensures(RV == 0 ==> (SC_ISSUED(sock_ids, NSK->s_id, NSK) && APPENDED(sock_list, NSK->s_node) && g_sopen_calls == OLD(g_sopen_calls) + 1 && g_sopen_data == NSK->s_data && g_sopen_locked \
+    && VP_HEAP_DELTA(1, 0) && g_sfini_calls == OLD(g_sfini_calls) && g_mqfini_calls == OLD(g_mqfini_calls) && !NSK->s_closed && NSK->s_ref == 0))
+/* failure: nothing handed out, registered or listed; everything built was released */
+__CPROVER_ensures(RV != 0 ==> (*sockp == OLD(*sockp) && sock_list.ll_head.ln_prev == OLD(sock_list.ll_head.ln_prev) && g_sopen_calls == OLD(g_sopen_calls) \
+    && g_alloc_ok - OLD(g_alloc_ok) == g_free_calls - OLD(g_free_calls) && g_mqfini_calls - OLD(g_mqfini_calls) == g_mqinit_calls - OLD(g_mqinit_calls)))
+__CPROVER_ensures((RV != 0 && g_ida_calls != OLD(g_ida_calls)) ==> (RV == NNG_ENOMEM && g_ida_fail && g_sfini_calls == OLD(g_sfini_calls) + 1 && g_free_calls == OLD(g_free_calls) + 1))
+__CPROVER_ensures((g_ida_calls != OLD(g_ida_calls) && g_ida_fail) ==> RV == NNG_ENOMEM)
+COVER(RV == 0) COVER(RV == NNG_ENOMEM && g_ida_calls != OLD(g_ida_calls)) COVER(RV != 0 && g_ida_calls == OLD(g_ida_calls))
 ;
 /* clang-format on */
 #endif
